@@ -5,6 +5,7 @@ import (
 	"strings"
 
 	"github.com/smarthome-go/homescript/v3/homescript/errors"
+	"github.com/smarthome-go/homescript/v3/homescript/lexer"
 	"github.com/smarthome-go/homescript/v3/homescript/lexer/util"
 )
 
@@ -111,8 +112,8 @@ type ObjectTypeField struct {
 
 func (self ObjectTypeField) String() string {
 	var key string
-	if !util.IsIdent(self.FieldName.ident) {
-		key = fmt.Sprintf("\"%s\"", self.FieldName.ident)
+	if !lexer.IsIdent(self.FieldName.ident) {
+		key = fmt.Sprintf("\"%s\"", util.EscapeString(self.FieldName.ident))
 	} else {
 		key = self.FieldName.ident
 	}
